@@ -29,6 +29,7 @@ type DB struct {
 	sstables      *sst.LevelList
 	tableWriter   *sst.TableWriter
 	tasks         *bg.AsyncGroup
+	pending       sync.WaitGroup // background tasks of this instance that have not finished yet
 	compactor     *sst.Compactor
 	checkpoints   *recovery.CheckpointList
 	seqNum        uint64 // The latest sequence number written
@@ -273,8 +274,28 @@ func (db *DB) NeedsTable(filePath string) bool {
 	return db.checkpoints.IncludesTable(filePath)
 }
 
+// Close waits for the background flush and compaction tasks of this instance.
+// After it returns the instance writes no more table files, so its directory can
+// be handed to a new instance opened from one of its checkpoints. (New tables are
+// numbered from the checkpoint on: a task of the previous instance that is still
+// running would write under names the new instance uses too.)
 func (db *DB) Close() error {
+	if db == nil {
+		return nil // an operator that was never deployed has no database to close
+	}
+	db.pending.Wait()
 	return nil
+}
+
+// enqueue puts a background task of this instance on a process-wide queue. The
+// task counts as pending until it has run, whichever instance's worker picks it
+// up from the shared queue.
+func (db *DB) enqueue(tq *bg.TaskQueue, fn func() error) {
+	db.pending.Add(1)
+	db.tasks.Enqueue(tq, func() error {
+		defer db.pending.Done()
+		return fn()
+	})
 }
 
 func (db *DB) Diagnostics() string {
@@ -300,7 +321,7 @@ func (db *DB) rotateMemtable() {
 	db.wal.Cut()
 
 	// Write sealed tables to sstables
-	db.tasks.Enqueue(flushMemTablesQueue, func() error {
+	db.enqueue(flushMemTablesQueue, func() error {
 		sealedTables := db.mtables.Sealed()
 		verifhook.At("dkv.flush.begin", db, len(sealedTables))
 
@@ -324,7 +345,7 @@ func (db *DB) rotateMemtable() {
 		verifhook.At("dkv.flush.done", db, len(sealedTables))
 
 		// Run compact steps until there is no changeset
-		db.tasks.Enqueue(compactionQueue, func() error {
+		db.enqueue(compactionQueue, func() error {
 			for {
 				verifhook.At("dkv.compact.begin", db)
 				cs, err := db.compactor.Compact(db.currentSSTables())
